@@ -8,6 +8,7 @@ CONSTANTS
   BadNames <- MCBad1
   MaxDepth = 2
   MaxOps = 4
+  WithModes = FALSE
   Atomic = TRUE
   ExitFlavour = "entered"
 CONSTRAINT Bounded
